@@ -3,6 +3,22 @@ import CoreBGP.Props.DecTie
 namespace CoreBGP.Props.DecTieC07
 open CoreBGP CoreBGP.Model CoreBGP.Gen CoreBGP.Lemmas.DecTie CoreBGP.Props.DecTie
 
+/-! the generated table, evaluated (a changed decision of these functions is reported here) -/
+private theorem d_h_c0 : decision "peer.handleStateTransition" "case" 0 = .cmp "==" "t.to" "establishedState" := by decide
+private theorem d_h_c1 : decision "peer.handleStateTransition" "case" 1 =
+    .and (.cmp "==" "i" "in") (.cmp "<" "t.to" "t.from") := by decide
+private theorem d_h_c2 : decision "peer.handleStateTransition" "case" 2 = .cmp "==" "t.to" "openConfirmState" := by decide
+private theorem d_h_c3 : decision "peer.handleStateTransition" "case" 3 =
+    .cmp "==" "p.fsmState[other(i)]" "establishedState" := by decide
+private theorem d_h_c4 : decision "peer.handleStateTransition" "case" 4 =
+    .cmp "==" "p.fsmState[other(i)]" "openConfirmState" := by decide
+private theorem d_h_i0 : decision "peer.handleStateTransition" "if" 0 =
+    .or (.and (.atom "dominant") (.cmp "==" "i" "out")) (.and (.not (.atom "dominant")) (.cmp "==" "i" "in")) := by
+  decide
+private theorem d_h_dom : decision "peer.handleStateTransition" "assign:dominant" 0 =
+    .or (.cmp ">" "localID" "remoteID")
+      (.and (.cmp "==" "localID" "remoteID") (.cmp ">" "p.config.LocalAS" "p.config.RemoteAS")) := by decide
+
 /-! ## C07: the `switch` of `handleStateTransition` and the dominance rule -/
 
 def handleEnv (s : PState) (i : Dir) (t : Trans) : Env :=
